@@ -16,7 +16,7 @@
    ce143d9 "RemoveAll removes the subtree in one critical section". *)
 From Coq Require Import String.
 From AF Require Import Lib.Bytes Lib.Path Lib.Ops Gen.Consts Model.MemFile Model.MemFs Model.Conc
-  Proofs.ConcProof.
+  Model.ConcStatic Proofs.ConcProof.
 
 (* ================================================================== lockset *)
 (* Every pair of conflicting annotated accesses of sections that well-typed programs can run is
@@ -251,6 +251,51 @@ Theorem C03_quiescent_refuted_before_ce143d9 :
     lookup (cf_st (run_sched_legacy progs sched)) (nm "/d1") = None.
 Proof. exists w_orphan_progs, w_orphan_sched. vm_compute. repeat split; auto; discriminate. Qed.
 Print Assumptions C03_quiescent_refuted_before_ce143d9.
+
+(* ================================================================== the table extracted from the source *)
+(* The lock table of Model/Conc.v (cc_locktab: per Go function its lock operations in source order —
+   the harness extracts the same rows from the AST of /repo and compares) passes the static
+   discipline check of Model/ConcStatic.v: for every function entered holding nothing, on every
+   path (both branches of every if, loops, calls inlined): no unlock of a lock not held, mu never
+   taken while mu or a file mutex is held, file mutexes never nested, every return and every
+   log.Panic — after the deferred unlocks of all unwound frames — leaves nothing locked. *)
+Theorem C03_source_table_balanced : cc_tab_check cc_locktab_b = true.
+Proof. vm_compute. reflexivity. Qed.
+Print Assumptions C03_source_table_balanced.
+
+(* the functions in which an explicit panic is reachable: Remove, RemoveAll, Rename (through
+   renameDescendants / unRegisterWithParent: "parent of ... is nil") — all under a deferred unlock *)
+Theorem C03_source_table_panic_sites :
+  cc_tab_can_panic cc_locktab_b =
+  map cc_bytes ["MemMapFs.Remove"; "MemMapFs.RemoveAll"; "MemMapFs.Rename"; "MemMapFs.renameDescendants";
+                "MemMapFs.unRegisterWithParent"]%string.
+Proof. vm_compute. reflexivity. Qed.
+Print Assumptions C03_source_table_panic_sites.
+
+(* REFUTED before ce143d9: with RemoveAll's row of that tree the check fails exactly there (the
+   log.Panic of unRegisterWithParent is reached with mu write-locked and no deferred unlock) *)
+Theorem C03_source_table_refuted_before_ce143d9 :
+  cc_tab_bad cc_locktab_legacy = [cc_bytes "MemMapFs.RemoveAll"%string].
+Proof. vm_compute. reflexivity. Qed.
+Print Assumptions C03_source_table_refuted_before_ce143d9.
+
+(* the check is not vacuous: mutants of single rows are rejected *)
+Definition tab_with (name row : string) : list (str * str) :=
+  map (fun kv => if beqb (fst kv) (cc_bytes name) then (fst kv, cc_bytes row) else kv) cc_locktab_b.
+Example C03_ex_static_mutants :
+  (* Remove without defer *)
+  cc_tab_bad (tab_with "MemMapFs.Remove" "mu.Lock if{ call:unRegisterWithParent if{ ret } } else{ ret } mu.Unlock ret")
+    = [cc_bytes "MemMapFs.Remove"%string] /\
+  (* Chtimes re-entering mu through a helper that locks mu *)
+  cc_tab_bad (tab_with "MemMapFs.Chtimes" "mu.Lock defer:mu.Unlock if{ ret } call:setFileMode ret")
+    = [cc_bytes "MemMapFs.Chtimes"%string] /\
+  (* Close returning early with the file mutex held *)
+  cc_tab_bad (tab_with "mem.File.Close" "f.fileData.Lock if{ ret } f.fileData.Unlock ret")
+    = map cc_bytes ["MemMapFs.OpenFile"; "mem.File.Close"]%string /\
+  (* a file mutex taken inside another one *)
+  cc_tab_bad (tab_with "mem.ChangeFileName" "f.Lock call:Name f.Unlock")
+    <> [].
+Proof. vm_compute. repeat split; auto; discriminate. Qed.
 
 (* ================================================================== examples *)
 (* the model computes; one thread alone behaves like the sequential model *)
